@@ -109,9 +109,10 @@ def source_chain(kind: str, ta: int, tb: int, tc: int) -> str:
 
 # ------------------------------------------------------------------ O2 references
 DATA2 = "h1,h2,h3\na,b,c\nd,e\nf\ng,h,i\n"
-G = ['~id:a~ $[*][ @v = symv()  @d.k = symw()  gt(line_number(), symt()) ]']
+# the first member collects nothing; the references below are to the second member
+G = ['~id:z~ $[*][ @zz = 1  no() ]', '~id:a~ $[*][ @v = symv()  @d.k = symw()  gt(line_number(), symt()) ]']
 RECORDS2 = [r for r in csv.reader(io.StringIO(DATA2))]
-R = ['~id:r~ $[1][ @x = $g.variables.v  @y = $g.variables.d.k  @z = $g.headers.h3 ]']
+R = ['~id:r~ $[1][ @x = $g.variables.v  @y = $g.variables.d.k  @z = $g.headers.h3.a ]']
 R2 = ['~id:q~ $[*][ yes() ]']
 
 
@@ -120,8 +121,8 @@ R2 = ['~id:q~ $[*][ yes() ]']
     "O2-references",
     pre=["{LO} <= v1 <= {HI} and {LO} <= w1 <= {HI} and {LO} <= v2 <= {HI} and {LO} <= w2 <= {HI}"],
     post="_ == ''",
-    bound="group g (1 member collecting a ragged 5-record file) run once or twice (symbolic) leaving symbolic ints in a plain and "
-    "a tracking-keyed variable; then a group that reads $g.variables.v, $g.variables.d.k and $g.headers.h3, and groups run (serially and breadth-first, "
+    bound="group g (2 members: the first collects nothing, the second collects a ragged 5-record file) run once or twice (symbolic) leaving symbolic ints in a plain and "
+    "a tracking-keyed variable; then a group that reads $g.variables.v, $g.variables.d.k and $g.headers.h3.a, a replay of '$g.results.:first.a', and groups run (serially and breadth-first, "
     "before and after the second run of g, on the same instance) on the file name '$g.results.:last.a': always the most recent run's data.csv",
     outside="references to groups of several members; ':first'; 3 runs",
     encodes=["csvpath/matching/productions/reference.py:Reference._variable_value/_header_value/_get_value_from_results/get_results",
@@ -163,6 +164,7 @@ def _references(cs, root, twice, v1, w1, v2, w2) -> str:
     cs.collect_paths(filename="$g.results.:last.a", pathsname="r2")
     if kitpaths.result_lines(cs.results_manager.get_named_results("r2")[0]) != RECORDS2:
         problems.append("first replay of $g.results.:last.a did not give the first run's lines")
+    first_lines = RECORDS2
     if twice:
         kit.HOLD.update(symv=v2, symw=w2, symt=1)
         cs.collect_paths(filename="data", pathsname="g")
@@ -178,6 +180,10 @@ def _references(cs, root, twice, v1, w1, v2, w2) -> str:
         problems.append(f"$g.headers.h3 gave {rr.get('z')}, expected {want_z}")
     want_lines = [r for i, r in enumerate(RECORDS2) if i > lastt]
     got_serial = None
+    cs.collect_paths(filename="$g.results.:first.a", pathsname="r2")
+    got_first = kitpaths.result_lines(cs.results_manager.get_named_results("r2")[0])
+    if got_first != first_lines:
+        problems.append(f"replay of $g.results.:first.a gave {got_first}, the earliest run collected {first_lines}")
     got_byline = [list(x) for x in cs.collect_by_line(filename="$g.results.:last.a", pathsname="r2")]
     cs.collect_paths(filename="$g.results.:last.a", pathsname="r2")
     got_serial = kitpaths.result_lines(cs.results_manager.get_named_results("r2")[0])
